@@ -107,12 +107,12 @@ func (c *Chooser) Labels() []string {
 	return out
 }
 
-// memExceeded: the heap of this worker process is above VERIF_MEMLIMIT_MB (default 4096).
+// memExceeded: the heap of this worker process is above VERIF_MEMLIMIT_MB (default 2048).
 // Code under test may leak per execution (gocoro.Add starts a goroutine for a coroutine
 // that the full scheduler then refuses; it is never resumed); an exploration of millions
 // of executions stops as "capped" instead of taking the machine down.
 func memExceeded() bool {
-	limit := uint64(4096)
+	limit := uint64(2048)
 	if v := os.Getenv("VERIF_MEMLIMIT_MB"); v != "" {
 		if n, err := strconv.ParseUint(v, 10, 64); err == nil && n > 0 {
 			limit = n
